@@ -21,6 +21,7 @@
 #include <sys/syscall.h>
 #include <sys/wait.h>
 #include <time.h>
+#include <ucontext.h>
 #include <unistd.h>
 
 #include <string>
@@ -217,6 +218,20 @@ const char* verdict_name(int v) {
   return (v >= 0 && v <= 8) ? n[v] : "?";
 }
 
+// The child runs its body on a dedicated stack at a fixed address, so that
+// stack-allocated runtime objects have the same addresses no matter how deep
+// the parent's call stack was at fork time (hashes include addresses).
+#define CHILD_STACK (64ul << 20)
+char* child_stack;
+ucontext_t child_ctx, back_ctx;
+Slot* child_slot;
+VfCase* child_case;
+void child_main() {
+  vf_child_begin(&child_slot->job, child_slot->res);
+  child_case->body();
+  vf_child_end();
+}
+
 // ---------------------------------------------------------------------------
 void launch(Slot* sl, VfCase& c, const Sched& s, int level, int purpose,
             uint64_t horizon, bool branching, int trace_fd) {
@@ -246,9 +261,15 @@ void launch(Slot* sl, VfCase& c, const Sched& s, int level, int purpose,
       dup2(devnull_fd, 1);
       dup2(devnull_fd, 2);
     }
-    vf_child_begin(&sl->job, sl->res);
-    c.body();
-    vf_child_end();
+    child_slot = sl;
+    child_case = &c;
+    getcontext(&child_ctx);
+    child_ctx.uc_stack.ss_sp   = child_stack;
+    child_ctx.uc_stack.ss_size = CHILD_STACK;
+    child_ctx.uc_link          = nullptr;
+    makecontext(&child_ctx, child_main, 0);
+    swapcontext(&back_ctx, &child_ctx);
+    _exit(3);
   }
   sl->pid = pid;
 }
@@ -887,6 +908,10 @@ int vf_main(int argc, char** argv, const char* property,
     slots[j].res = &rs[j];
     slots[j].pid = 0;
   }
+  child_stack = (char*)syscall(SYS_mmap, NULL, CHILD_STACK,
+                               PROT_READ | PROT_WRITE,
+                               MAP_PRIVATE | MAP_ANONYMOUS | MAP_NORESERVE, -1,
+                               0);
   seen_tab  = (uint64_t*)arena(SEEN_SLOTS * 8, false);
   trace_tab = (uint64_t*)arena(TRACE_SLOTS * 8, false);
   out_tab   = (uint64_t*)arena(OUT_SLOTS * 8, false);
